@@ -37,6 +37,18 @@ CLAIMED = {
         "correspondence (Hasher(align=True), info.files) and searched end to end against the property on generated trees.",
         "Trusted: as C01.",
         "DESIGN.md section 5 C15"),
+    "C17": (
+        "Coq-certified checker (safe_ops_sound, by induction over operation lists) applied by vm_compute to the operation list "
+        "regenerated from edit.py; event-trace correspondence; exhaustive real fault injection",
+        "Machine-checked proof that EVERY operation list accepted by the executable checker safe_ops leaves, at every kill point "
+        "(between operations, inside the buffered write at any byte count, during clean-up) and after every raised error, either the "
+        "complete original or the complete edited metafile at the metafile path, plus the instance safe_ops(edit_fs_ops)=true for the "
+        "list a translator regenerates from edit_torrent on every run (anything it cannot classify is Unknown and rejected).  The "
+        "generated list is compared with the filesystem events of a real edit, and real faults (raise/kill at every operation, short "
+        "writes, RLIMIT_FSIZE, unencodable values) are injected exhaustively per (metafile, request).",
+        "Trusted: Coq kernel; the crash semantics in Spec/FsOps.v; the translator (checked against observed traces); rename(2) atomicity; "
+        "no durability claim across power loss (no fsync).",
+        "DESIGN.md section 5 C17"),
 }
 
 PENDING_REASON = "check not built yet (work in progress; see DESIGN.md section 9)"
